@@ -840,6 +840,126 @@ def rule_l10(F):
     return r
 
 
+def _variant_bound(b, defs, target_bb):
+    """the largest number of variants with which target_bb can be reached, as far as comparisons of a `len()` of a list of variants with
+    a constant say (None: no such comparison guards it)"""
+    lens = {bi for bi, t in mir.calls(b) if hir.last(mir.callee_def(t) or "") == "len" and t["args"] and mir.is_place_op(t["args"][0])
+            and "ariant" in str(b.mir["locals"][t["args"][0][1][0]].get("ty") or "")}
+    best = None
+    for bi, blk in enumerate(b.blocks):
+        t = blk["term"]
+        if t["k"] != "switch" or not mir.is_place_op(t["o"]):
+            continue
+        for d in defs.whole_defs(t["o"][1][0]):
+            if d[2] != "assign" or d[3]["rv"]["k"] != "bin" or d[3]["rv"]["op"] not in ("Gt", "Ge", "Lt", "Le"):
+                continue
+            a_, c_ = d[3]["rv"]["a"], d[3]["rv"]["b"]
+            op = d[3]["rv"]["op"]
+            ka, kc = mir.op_const(a_), mir.op_const(c_)
+            if kc is not None and mir.is_place_op(a_) and (mir.back_calls(b, defs, a_[1][0]) & lens):
+                n = kc.get("v")
+            elif ka is not None and mir.is_place_op(c_) and (mir.back_calls(b, defs, c_[1][0]) & lens):
+                n = ka.get("v")
+                op = {"Gt": "Lt", "Ge": "Le", "Lt": "Gt", "Le": "Ge"}[op]      # c op len  ==  len op' c
+            else:
+                continue
+            if not isinstance(n, int):
+                continue
+            tg = dict(t["targets"])
+            f_edge, t_edge = tg.get(0), t["otherwise"]
+            # `len > n` / `len >= n` true = too many; `len <= n` / `len < n` true = fine
+            ok_edge, bad_edge = (f_edge, t_edge) if op in ("Gt", "Ge") else (t_edge, f_edge)
+            allowed = n if op in ("Gt", "Le") else n - 1
+            if ok_edge is None or bad_edge is None:
+                continue
+            behind = target_bb in (mir.reachable_from(b, ok_edge) | {ok_edge}) and target_bb not in (mir.reachable_from(b, bad_edge) | {bad_edge})
+            if behind and (best is None or allowed < best):
+                best = allowed
+    return best
+
+
+def rule_l11(F):
+    """An enum value is (tag, payload) and the tag is ONE byte: `set_discriminant` writes `IrValue::U8(idx as u8)`, the generated
+    equality / clone / drop bodies and `match` switch on a byte.  So the number of variants of a declared enum is bounded where the
+    declaration is turned into a type: the construction of `TypeDefinition::Enum` from a list of variants of run-time length lies
+    on the within-bounds side of a comparison of that length with a constant no larger than what the tag can tell apart.  (Without
+    the bound `enum Big { V0, .., V299 }` makes `Big.V256` the same value as `Big.V0` - `match Big.V256 { V0 => true, _ => false }`
+    is true - and any `==` or full `match` on it aborts the compiler in Cranelift's switch builder.)"""
+    r = RuleResult("C02.L11", "enum tags are one byte: the definition of a declared enum bounds the number of variants by what the tag distinguishes", floor=2)
+    WIDTH = {"U8": 256, "U16": 65536, "U32": 1 << 32}
+    sd = [p for p in F.paths() if p.startswith("lir::lower") and hir.last(p) == "set_discriminant"]
+    cap = None
+    for p in sd:
+        b = F.body(p)
+        if b is None or not b.mir:
+            continue
+        for blk in b.blocks:
+            for st in blk["stmts"]:
+                if st["k"] == "assign" and st["rv"]["k"] == "agg" and hir.last(st["rv"].get("adt") or "") == "IrValue" and st["rv"].get("variant") in WIDTH:
+                    c_ = WIDTH[st["rv"]["variant"]]
+                    cap = c_ if cap is None else min(cap, c_)
+                    r.inst("tag written by %s" % hir.last(p), {"fn": p, "tag": st["rv"]["variant"], "distinguishes": c_})
+    if cap is None:
+        r.missing("the tag write (IrValue::U8(idx as u8)) in lir::lower set_discriminant")
+        return r
+    sites = 0
+    for b in F.bodies_in(["src/typechecker/mod.rs", "src/typechecker/types.rs", "src/typechecker/info.rs"]):
+        if not b.mir or "::tests::" in b.path:
+            continue
+        aggs = [(bi, s_) for bi, s_ in mir.agg_sites(b, "typechecker::types::TypeDefinition") if s_["rv"].get("variant") == "Enum"]
+        if not aggs:
+            continue
+        defs = mir.Defs(b)
+        loops = mir.natural_loops(b)
+        pushes = [bi for bi, t in mir.calls(b) if hir.last(mir.callee_def(t) or "") in ("push", "extend", "collect", "from_iter") and any(bi in nodes for _, nodes in loops)]
+        if not pushes:
+            continue        # built from a fixed list of variants (the built-in enums)
+        lens = {bi for bi, t in mir.calls(b) if hir.last(mir.callee_def(t) or "") == "len" and t["args"] and mir.is_place_op(t["args"][0])
+                and "ariant" in str(b.mir["locals"][t["args"][0][1][0]].get("ty") or "")}
+        for abb, s_ in aggs:
+            # a declaration is input: the variants derive from a parameter of the function (the built-in enums are built from a table
+            # written in the function itself)
+            from .c08 import deps
+            roots = set()
+            for o in s_["rv"].get("ops") or []:
+                if mir.is_place_op(o):
+                    roots |= {x.split(".")[0] for x in deps(b, defs, o[1][0])}
+            if not any(x.startswith("arg") for x in roots):
+                continue
+            sites += 1
+            best = _variant_bound(b, defs, abb)
+            via = None
+            if best is None:
+                # the bound may be a helper of the type checker whose refusal is propagated (`self.check_variant_count(ident, &variants)?`)
+                gs = mir.gates(b, defs)
+                for g in gs:
+                    if not mir.gated_through(b, defs, gs, g, abb):
+                        continue
+                    for c in g["chain"]:
+                        hb = F.body(c[1]) if c[1] and c[1].startswith("typechecker::") and F.has(c[1]) else None
+                        if hb is None or not hb.mir:
+                            continue
+                        rets_ok = [bi for bi, blk in enumerate(hb.blocks) for st in blk["stmts"] if st["k"] == "assign" and st["p"] == [0] and st["rv"]["k"] == "agg" and st["rv"].get("variant") == "Ok"]
+                        hbest = None
+                        for ob in rets_ok:
+                            x = _variant_bound(hb, mir.Defs(hb), ob)
+                            if x is None:
+                                hbest = None
+                                break
+                            hbest = x if hbest is None else max(hbest, x)
+                        if hbest is not None and (best is None or hbest < best):
+                            best, via = hbest, c[1]
+            r.inst("declared enum in %s" % hir.last(b.path), {"fn": b.path, "line": s_.get("line"), "variants_allowed": best, "tag_distinguishes": cap, "bound_in": via or b.path})
+            if best is None or best > cap:
+                r.bad(b.path, "number of variants not bounded by the tag", relfile(b.file), s_.get("line") or b.line,
+                      "%s turns a declaration into an enum type without refusing more than %d variants (%s): the tag is one byte, variant %d gets the tag of variant 0 "
+                      "(`match Big.V%d { V0 => true, _ => false }` is true) and a switch over all variants aborts the compiler in Cranelift"
+                      % (hir.last(b.path), cap, "no comparison of the number of variants with a constant on the way" if best is None else "the bound found allows %d" % best, cap, cap))
+    if sites == 0:
+        r.missing("the construction of TypeDefinition::Enum from a declaration (variants collected in a loop) in src/typechecker")
+    return r
+
+
 def rules(ctx):
     F = ctx["F"]
-    return [rule_l1(F), rule_l2(F), rule_l3(F), rule_l4(F), rule_l5(F), rule_l6(F), rule_l7(F), rule_l8(F), rule_l9(F), rule_l10(F)]
+    return [rule_l1(F), rule_l2(F), rule_l3(F), rule_l4(F), rule_l5(F), rule_l6(F), rule_l7(F), rule_l8(F), rule_l9(F), rule_l10(F), rule_l11(F)]
